@@ -63,7 +63,9 @@ class Proc:
         self.spec_path = os.path.join(workdir, tag + ".json")
         with open(self.spec_path, "w") as f:
             json.dump(self.spec, f)
-        env = dict(os.environ, PYTHONDONTWRITEBYTECODE="1", PYTHONHASHSEED="0")
+        # every child has its own hash seed (as separate real processes do); derived from the tag, so a run is reproducible
+        import zlib
+        env = dict(os.environ, PYTHONDONTWRITEBYTECODE="1", PYTHONHASHSEED=str(1 + zlib.crc32(("%s/%s" % (kind, tag)).encode()) % 4000))
         self.p = subprocess.Popen([PY, CHILD, kind, self.spec_path], env=env, stdout=subprocess.DEVNULL, stderr=subprocess.PIPE, cwd=workdir)
 
     def wait(self, timeout=120):
